@@ -202,3 +202,19 @@ Proof.
     repeat split; try (intro H; vm_compute in H; intuition discriminate).
   - vm_compute. repeat split.
 Qed.
+
+(* ---- hypothesis audit --------------------------------------------------------- *)
+(* The unrestricted statement "the key string determines (tag, addr, cmd)" is false
+   (known finding key-separator-collision, reproduced on the real cache on every run): *)
+Theorem C07_key_inj_unrestricted_refuted :
+  exists t a c t' a' c', cmd_key t a c = cmd_key t' a' c' /\ (t, a, c) <> (t', a', c').
+Proof.
+  exists [], [x74; ch_comma; x61], [x31], [x74], [x61], [x31]. split; [reflexivity|discriminate].
+Qed.
+Print Assumptions C07_key_inj_unrestricted_refuted.
+(* durations: Go's int64 nanoseconds.  In range the model's seconds are exact; a server
+   announcing 2^40 s makes the entry expire in the past (fails safe), as the real code does *)
+Example C07_duration_in_range : go_secs 2100 = 2100 /\ go_secs 9223372036 = 9223372036 /\ go_secs (-5) = -5.
+Proof. vm_compute. repeat split. Qed.
+Example C07_duration_wraps : go_secs 1099511627776 < 0 /\ go_secs 9223372037 < 0.
+Proof. vm_compute. split; reflexivity. Qed.
